@@ -123,7 +123,7 @@ class Ctx:
         cov["evaluations"] = max(self.evaluations, 0)
         cov["distinct_nontrivial"] = len(self.distinct)
         cov["rule"] = self.rule
-        cov["samples"] = self.samples[:8]
+        cov["samples"] = self.samples[:8] or [{"note": "no individual case was sampled in this run", "tlc_runs": [r.get("name") for r in self.tlc_runs[:5]]}]
         cov["states"] = self.states
         cov["transitions"] = self.transitions
         cov["traces_validated_against_impl"] = self.traces
